@@ -27,9 +27,9 @@ type TxSpec struct {
 	NonceOff int    `json:"nonceOff,omitempty"` // added to the tracked nonce
 	FixNonce bool   `json:"fixNonce,omitempty"` // use NonceVal as the absolute nonce and a fixed time stamp (a CONCRETE signed tx: identical bytes whenever delivered)
 	NonceVal uint64 `json:"nonceVal,omitempty"`
-	SignBy   string `json:"signBy,omitempty"`   // sign with another wallet's key
-	BadSig   string `json:"badSig,omitempty"`   // "flip" "trunc" "empty" "v"
-	ChainID  string `json:"chainId,omitempty"`  // sign for another chain id
+	SignBy   string `json:"signBy,omitempty"`  // sign with another wallet's key
+	BadSig   string `json:"badSig,omitempty"`  // "flip" "trunc" "empty" "v"
+	ChainID  string `json:"chainId,omitempty"` // sign for another chain id
 
 	StakeOwner string `json:"stakeOwner,omitempty"` // unstake: whose stake ...
 	StakeTo    string `json:"stakeTo,omitempty"`    // ... delegated to whom ("" = any)
